@@ -38,6 +38,18 @@ def BelowOk : List Frame → Prop
 theorem belowOk_nil : BelowOk [] := trivial
 theorem belowOk_cons {a : Frame} {l : List Frame} : BelowOk (a :: l) ↔ belowOk a l.head? = true ∧ BelowOk l := Iff.rfl
 
+theorem belowOk_some (fr c : Frame) : belowOk fr (some c) = if isChk2 c then isRingFr fr else !ctype c := rfl
+
+theorem belowOk_any {fr : Frame} {o : Option Frame} (h : belowOk fr o = true) (hnr : isRingFr fr = false)
+    (X : Frame) : belowOk X o = true := by
+  cases o with
+  | none => rfl
+  | some c =>
+    simp only [belowOk, hnr] at h ⊢
+    cases hc : isChk2 c
+    · simp only [hc] at h ⊢; exact h
+    · simp [hc] at h
+
 def ShapeB (s' : State) (t : Tid) (fr : Frame) (rest : List Frame) : Prop :=
   ∃ th', s'.threads t = some th' ∧ (BelowOk (fr :: rest) → BelowOk th'.stack)
 
@@ -71,21 +83,10 @@ theorem shapeB (s : State) (t : Tid) (th : Thread) (fr : Frame) (rest : List Fra
     simp only [ShapeB, setThread, setSig, setPool, setFut, withFault, destroySig, upd_same, hth, Option.some.injEq,
       exists_eq_left']
     intro hb
-    simp only [belowOk_cons] at hb
-    have hb1 := hb.1
+    have hany : ∀ X, belowOk X rest.head? = true := belowOk_any hb.1 rfl
     have hb2 := hb.2
-    cases rest with
-    | nil => simp [Thread.cont, hst, hrep, belowOk_cons, belowOk_nil, belowOk, ctype, isChk2, isRingFr]
-    | cons c rest' =>
-      simp only [List.head?_cons, belowOk, isRingFr] at hb1
-      have hc2 : isChk2 c = false := by
-        cases h : isChk2 c
-        · rfl
-        · simp [h] at hb1
-      simp only [hc2] at hb1
-      have hb3 := hb2.1
-      simp [Thread.cont, hst, hrep, belowOk_cons, belowOk_nil, belowOk, ctype, isChk2, isRingFr, hb2, hc2, hb1, hb3]
-      try (simp_all [belowOk, ctype, isChk2, isRingFr]; done)
+    simp [Thread.cont, hst, hrep, belowOk_cons, belowOk_nil, belowOk_some, ctype, isChk2, isRingFr, hany, hb2]
+    try (simp_all [belowOk_some, ctype, isChk2, isRingFr]; done)
 
 def BelowInv (s : State) : Prop := ∀ t th, s.threads t = some th → BelowOk th.stack
 
@@ -241,12 +242,12 @@ structure ShapeP (s s' : State) (t : Tid) (th : Thread) (fr : Frame) (rest : Lis
   f3 : sig1 s = true → sig1 s' = true ∨ witAtP s' (tlOf s) t = true ∨ cpOf s' = 0
   f4 : witSP (tlOf s) th.retB (fr :: rest) = true → witAtP s' (tlOf s) t = true ∨ deqOf s' = 1 ∨ cpOf s' = 0
 
-set_option maxHeartbeats 16000000 in
-theorem shapeP (s : State) (t : Tid) (th : Thread) (fr : Frame) (rest : List Frame)
+set_option maxHeartbeats 8000000 in
+theorem shapeP_pool (s : State) (t : Tid) (th : Thread) (fr : Frame) (rest : List Frame)
     (hth : s.threads t = some th) (hst : th.stack = fr :: rest) (hrep : s.cfg.repaired = true)
     (hnr : ∀ pc, fr ≠ .ring pc) (hnc : creates s fr = false)
     (hadj : AdjP (fr :: rest)) (hbel : BelowOk (fr :: rest)) :
-    ShapeP s (stepFrame s t th fr).1 t th fr rest := by
+    (hdOf (stepFrame s t th fr).1 = hdOf s ∧ tlOf (stepFrame s t th fr).1 = tlOf s ∧ cpOf (stepFrame s t th fr).1 = cpOf s) ∨ cpOf (stepFrame s t th fr).1 = 0 := by
   have hcb : ∀ T rb, commitP T rb rest = false := by
     intro T rb
     apply commit_below hbel
@@ -264,27 +265,131 @@ theorem shapeP (s : State) (t : Tid) (th : Thread) (fr : Frame) (rest : List Fra
   all_goals (try simp only [creates] at hnc)
   all_goals (try (exfalso; simp_all; done))
   all_goals
-    constructor
-    · simp [hdOf, tlOf, cpOf, hp, setThread, setSig, setPool, setFut, withFault, destroySig, setFsState_ring, mkPool, Ring.init]
-    · intro h1
-      simp [commitAt, commitP_cons, commitP_nil, commitTop, hcb, hp, hth, hst, hrep, isChk2, stalePush,
-        setThread, setSig, setPool, setFut, withFault, destroySig, upd_same, Thread.cont] at h1 ⊢
-      try grind
-    · intro h1
-      simp [deqOf, hdOf, tlOf, cpOf, witAtP, witSP, busyPop, lookP_cons, lookP_nil, transpP, lookTopP, hp, hth, hst, hrep,
-        setThread, setSig, setPool, setFut, withFault, destroySig, setFsState_deq, setFsState_ring, mkPool, Ring.init,
-        upd_same, Thread.cont] at h1 ⊢
-      try grind [lookP_of_push2]
-    · intro h1
-      simp [sig1, deqOf, hdOf, tlOf, cpOf, witAtP, witSP, busyPop, lookP_cons, lookP_nil, transpP, lookTopP, hp, hth, hst, hrep,
-        setThread, setSig, setPool, setFut, withFault, destroySig, setFsState_deq, setFsState_ring, mkPool, Ring.init,
-        upd_same, Thread.cont] at h1 ⊢
-      try grind [upd, lookP_of_head_fRstLoad]
-    · intro h1
-      simp [deqOf, hdOf, tlOf, cpOf, witAtP, witSP, busyPop, lookP_cons, lookP_nil, transpP, lookTopP, hp, hth, hst, hrep,
-        isChk1, isChk2, prePush, freshPush, popOwn,
-        setThread, setSig, setPool, setFut, withFault, destroySig, setFsState_deq, setFsState_ring, mkPool, Ring.init,
-        upd_same, Thread.cont] at h1 ⊢
-      try grind
+    simp [hdOf, tlOf, cpOf, hp, setThread, setSig, setPool, setFut, withFault, destroySig, setFsState_ring, mkPool, Ring.init]
+
+set_option maxHeartbeats 8000000 in
+theorem shapeP_c1 (s : State) (t : Tid) (th : Thread) (fr : Frame) (rest : List Frame)
+    (hth : s.threads t = some th) (hst : th.stack = fr :: rest) (hrep : s.cfg.repaired = true)
+    (hnr : ∀ pc, fr ≠ .ring pc) (hnc : creates s fr = false)
+    (hadj : AdjP (fr :: rest)) (hbel : BelowOk (fr :: rest)) :
+    commitAt (stepFrame s t th fr).1 (tlOf s) t = true → commitP (tlOf s) th.retB (fr :: rest) = true := by
+  have hcb : ∀ T rb, commitP T rb rest = false := by
+    intro T rb
+    apply commit_below hbel
+    cases fr <;> first | rfl | exact absurd rfl (hnr _)
+  have hb := hadj
+  cases fr
+  case ring pc => exact absurd rfl (hnr pc)
+  all_goals
+    rcases hp : s.pool with _ | p
+  all_goals
+    simp only [adjP_cons, adjP] at hb
+    simp only [stepFrame, hp]
+    repeat' split
+  all_goals (try simp only [fsState] at *)
+  all_goals (try simp only [creates] at hnc)
+  all_goals (try (exfalso; simp_all; done))
+  all_goals
+    intro h1
+    simp [commitAt, commitP_cons, commitP_nil, commitTop, hcb, hp, hth, hst, hrep, isChk2, stalePush,
+      setThread, setSig, setPool, setFut, withFault, destroySig, upd_same, Thread.cont] at h1 ⊢
+    try grind
+
+set_option maxHeartbeats 8000000 in
+theorem shapeP_f2 (s : State) (t : Tid) (th : Thread) (fr : Frame) (rest : List Frame)
+    (hth : s.threads t = some th) (hst : th.stack = fr :: rest) (hrep : s.cfg.repaired = true)
+    (hnr : ∀ pc, fr ≠ .ring pc) (hnc : creates s fr = false)
+    (hadj : AdjP (fr :: rest)) (hbel : BelowOk (fr :: rest)) :
+    deqOf s = 1 → deqOf (stepFrame s t th fr).1 = 1 ∨ witAtP (stepFrame s t th fr).1 (tlOf s) t = true ∨ cpOf (stepFrame s t th fr).1 = 0 := by
+  have hcb : ∀ T rb, commitP T rb rest = false := by
+    intro T rb
+    apply commit_below hbel
+    cases fr <;> first | rfl | exact absurd rfl (hnr _)
+  have hb := hadj
+  cases fr
+  case ring pc => exact absurd rfl (hnr pc)
+  all_goals
+    rcases hp : s.pool with _ | p
+  all_goals
+    simp only [adjP_cons, adjP] at hb
+    simp only [stepFrame, hp]
+    repeat' split
+  all_goals (try simp only [fsState] at *)
+  all_goals (try simp only [creates] at hnc)
+  all_goals (try (exfalso; simp_all; done))
+  all_goals
+    intro h1
+    simp [deqOf, hdOf, tlOf, cpOf, witAtP, witSP, busyPop, lookP_cons, lookP_nil, transpP, lookTopP, hp, hth, hst, hrep,
+      setThread, setSig, setPool, setFut, withFault, destroySig, setFsState_deq, setFsState_ring, mkPool, Ring.init,
+      upd_same, Thread.cont] at h1 ⊢
+    try grind [lookP_of_push2]
+
+set_option maxHeartbeats 8000000 in
+theorem shapeP_f3 (s : State) (t : Tid) (th : Thread) (fr : Frame) (rest : List Frame)
+    (hth : s.threads t = some th) (hst : th.stack = fr :: rest) (hrep : s.cfg.repaired = true)
+    (hnr : ∀ pc, fr ≠ .ring pc) (hnc : creates s fr = false)
+    (hadj : AdjP (fr :: rest)) (hbel : BelowOk (fr :: rest)) :
+    sig1 s = true → sig1 (stepFrame s t th fr).1 = true ∨ witAtP (stepFrame s t th fr).1 (tlOf s) t = true ∨ cpOf (stepFrame s t th fr).1 = 0 := by
+  have hcb : ∀ T rb, commitP T rb rest = false := by
+    intro T rb
+    apply commit_below hbel
+    cases fr <;> first | rfl | exact absurd rfl (hnr _)
+  have hb := hadj
+  cases fr
+  case ring pc => exact absurd rfl (hnr pc)
+  all_goals
+    rcases hp : s.pool with _ | p
+  all_goals
+    simp only [adjP_cons, adjP] at hb
+    simp only [stepFrame, hp]
+    repeat' split
+  all_goals (try simp only [fsState] at *)
+  all_goals (try simp only [creates] at hnc)
+  all_goals (try (exfalso; simp_all; done))
+  all_goals
+    intro h1
+    simp [sig1, deqOf, hdOf, tlOf, cpOf, witAtP, witSP, busyPop, lookP_cons, lookP_nil, transpP, lookTopP, hp, hth, hst, hrep,
+      setThread, setSig, setPool, setFut, withFault, destroySig, setFsState_deq, setFsState_ring, mkPool, Ring.init,
+      upd_same, Thread.cont] at h1 ⊢
+    try grind [upd, lookP_of_head_fRstLoad]
+
+set_option maxHeartbeats 8000000 in
+theorem shapeP_f4 (s : State) (t : Tid) (th : Thread) (fr : Frame) (rest : List Frame)
+    (hth : s.threads t = some th) (hst : th.stack = fr :: rest) (hrep : s.cfg.repaired = true)
+    (hnr : ∀ pc, fr ≠ .ring pc) (hnc : creates s fr = false)
+    (hadj : AdjP (fr :: rest)) (hbel : BelowOk (fr :: rest)) :
+    witSP (tlOf s) th.retB (fr :: rest) = true → witAtP (stepFrame s t th fr).1 (tlOf s) t = true ∨ deqOf (stepFrame s t th fr).1 = 1 ∨ cpOf (stepFrame s t th fr).1 = 0 := by
+  have hcb : ∀ T rb, commitP T rb rest = false := by
+    intro T rb
+    apply commit_below hbel
+    cases fr <;> first | rfl | exact absurd rfl (hnr _)
+  have hb := hadj
+  cases fr
+  case ring pc => exact absurd rfl (hnr pc)
+  all_goals
+    rcases hp : s.pool with _ | p
+  all_goals
+    simp only [adjP_cons, adjP] at hb
+    simp only [stepFrame, hp]
+    repeat' split
+  all_goals (try simp only [fsState] at *)
+  all_goals (try simp only [creates] at hnc)
+  all_goals (try (exfalso; simp_all; done))
+  all_goals
+    intro h1
+    simp [deqOf, hdOf, tlOf, cpOf, witAtP, witSP, busyPop, lookP_cons, lookP_nil, transpP, lookTopP, hp, hth, hst, hrep,
+      isChk1, isChk2, prePush, freshPush, popOwn,
+      setThread, setSig, setPool, setFut, withFault, destroySig, setFsState_deq, setFsState_ring, mkPool, Ring.init,
+      upd_same, Thread.cont] at h1 ⊢
+    try grind
+
+theorem shapeP (s : State) (t : Tid) (th : Thread) (fr : Frame) (rest : List Frame)
+    (hth : s.threads t = some th) (hst : th.stack = fr :: rest) (hrep : s.cfg.repaired = true)
+    (hnr : ∀ pc, fr ≠ .ring pc) (hnc : creates s fr = false)
+    (hadj : AdjP (fr :: rest)) (hbel : BelowOk (fr :: rest)) :
+    ShapeP s (stepFrame s t th fr).1 t th fr rest :=
+  ⟨shapeP_pool s t th fr rest hth hst hrep hnr hnc hadj hbel, shapeP_c1 s t th fr rest hth hst hrep hnr hnc hadj hbel,
+   shapeP_f2 s t th fr rest hth hst hrep hnr hnc hadj hbel, shapeP_f3 s t th fr rest hth hst hrep hnr hnc hadj hbel,
+   shapeP_f4 s t th fr rest hth hst hrep hnr hnc hadj hbel⟩
 
 end Nstd.Future.LP
